@@ -131,6 +131,11 @@ let f _id vs =
          | Some t -> Printf.sprintf "DIFF op %d: %s" i t
          | None -> go (i + 1) r) in
     go 0 steps
+  | [I "9"; _backend; _combo; _done_before; c1; a1; c2; a2] ->
+    (* gated two-store case: the driver compared the two real runs (PROP line); the model side is
+       Props/C17.v latest_lookup_isolated.  Re-check the recorded pair. *)
+    if as_int c1 = as_int c2 && as_bool a1 = as_bool a2 && as_int c1 = 0 && as_bool a1 then "OK"
+    else "PROP cross-store: model-less Check of store B while store A's lookup is in flight differs from B alone (B's latest model allows)"
   | _ -> "DIFF malformed-record"
 
 let () = run_oracle f
